@@ -5,7 +5,7 @@ from . import gcx
 
 ID = "C01"
 LEVEL = "exploration"
-BUDGET = {"quick": 1000, "thorough": 80000}
+BUDGET = {"quick": 1000, "thorough": 240000}
 RULE = ("case = history over a shadow heap graph, executed in a fresh Cello Thread: objects of every representation (plain "
         "struct with 4 pointer fields, Ref, Box, Array<Ref>, List<Ref>, Table<Int,Ref>, Table<Ref,Ref> keys+values, "
         "Tree<Int,Ref>, heap Tuple; malloc'd and arena-allocated), pointer stores and removals chosen among reachable objects "
